@@ -111,8 +111,12 @@ func QuiesceTimeout(limit time.Duration) error {
 		}
 		if !busy {
 			stable++
-			if stable >= 2 {
+			if stable >= 3 {
 				return nil
+			}
+			if stable == 2 {
+				// let anything that was about to be made runnable show itself before the deciding sample
+				time.Sleep(30 * time.Microsecond)
 			}
 			continue
 		}
